@@ -87,18 +87,19 @@ func (api *HTTP) getMessages(ctx context.Context, lastSeen robust.Id, msgschan c
 	// …when resuming, GetNext(1431542836610113945.2) will return
 	// 1431542836691955391.*, skipping the remaining messages with
 	// Id=1431542836610113945.
-	// Hence, we need to Get(1431542836610113945.2) to send
-	// 1431542836610113945.3 and following to the client.
-	if msgs, ok := api.output().Get(lastSeen); ok && int(lastSeen.Reply) < len(msgs) {
-		select {
-		case <-ctx.Done():
-			return
-		case msgschan <- outputToRobustMessages(msgs[lastSeen.Reply:]):
-		}
-	}
+	// Hence, until the message |lastSeen| refers to was dealt with, we
+	// look for that very message first (by asking for the successor of
+	// the id before it) and send only 1431542836610113945.3 and following
+	// to the client. The message might be applied on this node only
+	// later, when the client saw it on a different node.
+	sentRemainder := false
 
 	for {
-		if msgs = api.output().GetNext(ctx, lastSeen); len(msgs) == 0 {
+		position := lastSeen
+		if !sentRemainder && lastSeen.Id > 0 {
+			position = robust.Id{Id: lastSeen.Id - 1}
+		}
+		if msgs = api.output().GetNext(ctx, position); len(msgs) == 0 {
 			if ctx.Err() != nil {
 				return
 			}
@@ -118,7 +119,18 @@ func (api *HTTP) getMessages(ctx context.Context, lastSeen robust.Id, msgschan c
 			continue
 		}
 
-		lastSeen = msgs[0].Id
+		if !sentRemainder && msgs[0].Id.Id == lastSeen.Id {
+			// The client has seen this message up to and including
+			// reply |lastSeen.Reply|.
+			sentRemainder = true
+			if int(lastSeen.Reply) >= len(msgs) {
+				continue
+			}
+			msgs = msgs[lastSeen.Reply:]
+		} else {
+			sentRemainder = true
+			lastSeen = msgs[0].Id
+		}
 		select {
 		case <-ctx.Done():
 			return
